@@ -1,45 +1,255 @@
-"""per-property configuration of the checks"""
-from bounded import c06, ops
+"""per-property configuration of the checks (which Engine B module, which lemmas, what is
+assumed, which level is claimed)"""
+import importlib
+import os
+
+HERE = os.path.dirname(os.path.dirname(os.path.abspath(__file__)))
 
 
 def _ops(p):
-    return lambda tier, seed: ops.run(p, tier, seed)
+    def f(tier, seed):
+        from bounded import ops
+
+        return ops.run(p, tier, seed)
+
+    return f
+
+
+def _mod(name, fn="run"):
+    def f(tier, seed):
+        m = importlib.import_module(f"bounded.{name}")
+        return getattr(m, fn)(tier, seed)
+
+    f.module = name
+    return f
+
+
+def _both(*fs):
+    """merge several Engine B runs"""
+
+    def f(tier, seed):
+        out = None
+        for g in fs:
+            r = g(tier, seed)
+            r["fingerprints"] = set(r.get("fingerprints", []))
+            if out is None:
+                out = r
+                out["scope"] = str(r.get("scope"))
+            else:
+                out["evaluations"] = (out.get("evaluations") or 0) + (r.get("evaluations") or 0)
+                out["fingerprints"] |= {("+", x) for x in r["fingerprints"]}
+                out["violations"] = list(out["violations"]) + list(r["violations"])
+                out["scope"] += " || " + str(r.get("scope"))
+                out["samples"] = list(out.get("samples") or []) + list(r.get("samples") or [])[:1]
+        return out
+
+    return f
 
 
 TB = ["TB-fml", "TB-solver", "TB-py"]
+L1 = "L1 (greedy tolerance test fails iff no ordered tolerance partition exists; order independence of the verdict) - classical (Goldszmidt/Pearl); cross-checked by Engine B against a brute force over all ordered partitions on bases of <= 3 conditionals"
+LSTOP = "L-stop: the greedy layering reaches an empty layer (the remainder strictly shrinks while a layer is non-empty)"
+LREST = "L-rest: GR(cs,stop) and GR(cs,stop+1) have the same elements (the layer at stop is empty)"
 
 PROPS = {
     "C01": dict(
         level="proof",
         bounded=_ops("C01"),
+        lemmas=["lenGLs", "mem.snoc.Int", "mem.nil.Int"],
         trusted=TB,
-        assumed=[
-            "L1 (greedy tolerance test fails iff no ordered tolerance partition exists; order independence) - classical (Goldszmidt/Pearl), cross-checked by Engine B on S2",
-            "Adams/Goldszmidt-Pearl theorem: no tolerance partition of D+(not B|A) iff (B|A) accepted by every ranking model of D",
-            "L-stop: the greedy layering reaches an empty layer (termination measure |remaining|)",
-        ],
-        explanation="Engine P proves, from the real source, Conditional.make_*, toImplicit, consistency (both loops, all exits), "
-        "PEntailment._inference (strict and extended) and the shared wrapper general_inference against the greedy tolerance-partition "
-        "specification; the link greedy <-> declarative is an assumed classical lemma. Engine B compares InferenceManager with a "
-        "brute-force oracle written from the property wording.",
+        assumed=[L1, "Adams / Goldszmidt-Pearl: D+(not B|A) has no tolerance partition iff (B|A) is accepted by every ranking model of D", LSTOP],
+        explanation="Engine P proves, from the real source, Conditional.make_*, toImplicit, consistency (both loops, every exit), "
+        "PEntailment._inference (strict and extended, for arbitrary distinct integer keys) and the shared wrapper general_inference against "
+        "the greedy tolerance-partition specification; greedy <-> declarative is an assumed classical lemma. Engine B compares "
+        "InferenceManager with a brute-force oracle written from the property wording (bounded stand-in).",
     ),
     "C02": dict(
         level="proof",
         bounded=_ops("C02"),
+        lemmas=["lenGLs", "Zmono", "Zshrink", "L2a"],
         trusted=TB,
-        assumed=["L2: EZ(P,q,TOP,m-1) iff rank(AB) < rank(A not B) under kz (unfolding of kz(w) <= i iff w in R_i; Zmono)", "L-stop"],
+        assumed=["L2b: 'some layer i has a verifying and no falsifying world of rank <= i' iff rank(AB) < rank(A not B) (unfolding of kz(w) <= i iff w in R_i; arithmetic of minima)", LSTOP],
         explanation="Engine P proves SystemZ._preprocess_belief_base (partition = greedy partition), _inference and the recursion "
-        "_rec_inference (result == EZ, the layer-wise rank comparison) from the real source; Engine B compares with the oracle's "
-        "kz-based definition.",
+        "_rec_inference (result == EZ, the layer-wise descent) from the real source; lemma L2a (EZ = exists separating layer) is proved "
+        "by induction in z3 on every run. Engine B compares with the oracle's kz-based definition.",
+    ),
+    "C03": dict(
+        level="other",
+        bounded=_ops("C03"),
+        trusted=TB + ["TB-z3", "TB-time"],
+        assumed=["contract of SystemWZ3._rec_inference / get_all_xi_i (Wrec over minimal correction sets) - bounded only", "L3: Wrec = preferred-structure definition"],
+        explanation="Engine P proves the z3 back-end's _inference (query translation, optimizer set-up, top index, result plumbing) "
+        "against the ASSUMED contract of the correction-set recursion; the recursion itself, the rc2 back-end and the link to the "
+        "preferred-structure definition are decided by the bounded oracle comparison only (both back-ends).",
+    ),
+    "C04": dict(
+        level="other",
+        bounded=_both(_ops("C04"), _mod("lexbias")),
+        trusted=TB + ["TB-z3", "TB-time"],
+        assumed=["contract of LexInfZ3._rec_inference (Lspec) - bounded only", "L4"],
+        explanation="Engine P proves LexInfZ3._inference against the ASSUMED contract of the recursion; the recursion (exists/forall over "
+        "minimum-cardinality sets), the rc2 back-end and the link to the lexicographic definition are decided by the bounded oracle "
+        "comparison, including a generator biased to layers with several minimum-cardinality sets.",
+    ),
+    "C05": dict(
+        level="other",
+        bounded=_ops("C05"),
+        trusted=TB,
+        assumed=["L5: CSP over minimal correction sets iff existence of a violating c-representation"],
+        explanation="Decided by the bounded oracle comparison (z3 search for a c-representation violating the query over explicit "
+        "worlds); Engine P contributes general_inference (trivial queries) only.",
     ),
     "C06": dict(
         level="proof",
-        bounded=lambda tier, seed: c06.run(tier, seed),
+        bounded=_mod("c06"),
+        lemmas=["lenGLs", "lenGLsk", "mem.snoc.Int", "mem.nil.Int"],
         trusted=TB,
-        assumed=["L1", "L-stop", "L-rest: GR(cs,stop) and GR(cs,stop+1) have the same elements"],
-        explanation="Engine P proves consistency and consistency_indices (outer/inner loops, strict and extended exits) equal to the "
-        "greedy partition specification and preprocess_belief_base's refusal of empty/inconsistent bases.",
+        assumed=[L1, LSTOP, LREST],
+        explanation="Engine P proves consistency and consistency_indices (outer/inner loops, strict and extended exits, arbitrary keys) "
+        "equal to the greedy partition specification and preprocess_belief_base's refusal of empty/inconsistent bases. Engine B "
+        "compares partitions, key variant, diagnostics flags and refusal with the oracle.",
+    ),
+    "C07": dict(
+        level="other",
+        bounded=_ops("C07"),
+        trusted=TB + ["TB-z3", "TB-time"],
+        assumed=["L7: extended p-entailment formulation", "contracts of the W / lex recursions", LSTOP, LREST],
+        explanation="Engine P proves the extended branches of PEntailment._inference, SystemZ._inference (vacuity test, feasibility "
+        "constraints, no-finite-layer case) and of the z3 back-ends' _inference (W, lex) from the real source; the rc2 back-ends and the "
+        "W/lex recursions are decided by the bounded oracle comparison in weakly mode.",
+    ),
+    "C08": dict(
+        level="other",
+        bounded=_mod("rel", "run_c08"),
+        trusted=TB,
+        assumed=["the inclusion theorems of the cited papers"],
+        explanation="Relational (oracle-free) run-time contract over the shipped corpora and generated bases of up to dozens of atoms, "
+        "plus the operator contracts of C01/C02 discharged by Engine P.",
+    ),
+    "C09": dict(
+        level="other",
+        bounded=_mod("rel", "run_c09"),
+        trusted=TB,
+        assumed=["L9a-e (System P from preferential semantics)"],
+        explanation="Engine P proves general_inference's short cuts (reflexivity / supraclassicality path); the postulates are "
+        "checked as implications between answers on generated premise/conclusion batches (bounded).",
+    ),
+    "C10": dict(
+        level="other",
+        bounded=_mod("c10"),
+        trusted=["TB-antlr", "TB-fml", "TB-py"],
+        assumed=[],
+        explanation="Engine P proves the visitor methods (Or/And/Negation/Paren/Var incl. Top/Bottom) against the documented meaning; "
+        "the ANTLR-generated recogniser is a table-driven interpreter outside its reach and is compared exhaustively with a reference "
+        "parser written from docs/CL_SYNTAX.md on all token strings up to the stated length (bounded).",
+    ),
+    "C11": dict(
+        level="other",
+        bounded=_mod("rel", "run_c11"),
+        trusted=TB + ["TB-z3", "TB-time", "TB-sat (assumed for every engine name)"],
+        assumed=[],
+        explanation="Engine P proves the back-end dispatch (create_inference_instance, create_optimizer) and the z3 back-ends' "
+        "_inference; agreement across all usable engines is checked end-to-end (bounded).",
+    ),
+    "C12": dict(
+        level="other",
+        bounded=_mod("rel", "run_c12"),
+        trusted=TB,
+        assumed=[L1],
+        explanation="Engine P's contracts for consistency_indices and PEntailment._inference hold for arbitrary distinct integer keys and "
+        "an uninterpreted sort of worlds (no dependence on names); the remaining operators are checked by metamorphic variants (bounded).",
+    ),
+    "C13": dict(
+        level="other",
+        bounded=_mod("c13"),
+        lemmas=["mem.snoc.Str"],
+        trusted=TB + ["TB-mp (multi_inference assumed sequentialised)"],
+        assumed=["precondition: query texts of one batch are pairwise distinct (negated carve-out of the known finding)"],
+        explanation="Engine P proves the row plumbing (single_inference, _multi_inference_worker, Inference.inference): every row is "
+        "stored under its query's text, carries its own key, and is flagged or carries the operator's answer, for batches with "
+        "pairwise distinct texts; histories, duplicates and parallel evaluation are exercised by the bounded module.",
+    ),
+    "C14": dict(
+        level="other",
+        bounded=_mod("c14"),
+        lemmas=["mem.snoc.Str"],
+        trusted=TB + ["TB-z3", "TB-time (every clock observation nondeterministic)"],
+        assumed=[],
+        explanation="Engine P proves, with every clock observation and every Optimize.check() under a timeout nondeterministic, that "
+        "single_inference / the worker / preprocess_belief_base convert exactly TimeoutError into flagged rows with answer False and "
+        "that the z3 back-ends' _inference raise nothing else; fault injection at every observation point is the bounded stand-in.",
+    ),
+    "C15": dict(
+        level="other",
+        bounded=_mod("c15"),
+        trusted=["TB-tac", "TB-sat", "TB-py"],
+        assumed=[],
+        explanation="Engine P proves Conditional(_z3).make_* (the formulas handed to the Tseitin tactic); the integer CNFs and the "
+        "correction-set enumeration are compared with truth tables / brute force (bounded).",
+    ),
+    "C16": dict(
+        level="other",
+        bounded=_mod("c16"),
+        trusted=TB,
+        assumed=["symbolize_bitvec (string manipulation) denotes the world", LSTOP],
+        explanation="Engine P proves SystemZPreOCF._rec_z_rank, z_part2ocf and rank_world with the cache invariant (lazy / forced / "
+        "bulk computation agree in any order) and acceptance on top of formula_rank; constructor, facts and diagnostics are bounded.",
+    ),
+    "C17": dict(
+        level="other",
+        bounded=_mod("c17"),
+        trusted=TB + ["TB-z3"],
+        assumed=["existence of c-representations for strongly consistent bases"],
+        explanation="Engine P proves c_vec2ocf (rank = sum of impacts of falsified conditionals, keys 1..n); construction, "
+        "Pareto-minimality and front enumeration are compared with brute force (bounded).",
+    ),
+    "C18": dict(
+        level="other",
+        bounded=_mod("c18"),
+        trusted=TB,
+        assumed=["symbolize_bitvec denotes the world"],
+        explanation="Engine P proves formula_rank (least rank of the models, None if none) and conditional_acceptance from the real "
+        "source; marginalisation, conditionalisation and TPO conversion are compared with definitions on all small rankings (bounded).",
+    ),
+    "C19": dict(
+        level="other",
+        bounded=_mod("c19"),
+        trusted=["TB-z3", "TB-py"],
+        assumed=[],
+        explanation="Decided by the bounded module (acceptance of the revised ranking over explicit worlds, existence search, Pareto "
+        "minimality, agreement of the three compilations, add/remove histories).",
+    ),
+    "C20": dict(
+        level="other",
+        bounded=_mod("c20"),
+        trusted=["TB-io", "TB-py"],
+        assumed=[],
+        explanation="Engine P proves that save_ocf leaves the object's attribute dictionary unchanged on the normal exit and on every "
+        "exception edge of open()/dump(); round-trip fidelity is the contract of pickle/json and is checked by the bounded module "
+        "(same and fresh process, partial states, failing saves).",
     ),
 }
 
 NOT_APPLICABLE = {}
+
+
+def available(pid):
+    """a property is claimed only if its Engine B module exists (or it needs none)"""
+    b = PROPS[pid].get("bounded")
+    mods = []
+
+    def collect(f):
+        if hasattr(f, "module"):
+            mods.append(f.module)
+        for c in getattr(f, "__closure__", None) or []:
+            v = c.cell_contents
+            if callable(v):
+                collect(v)
+            elif isinstance(v, tuple):
+                for x in v:
+                    if callable(x):
+                        collect(x)
+
+    if b:
+        collect(b)
+    return all(os.path.exists(os.path.join(HERE, "bounded", m + ".py")) for m in mods)
